@@ -20,9 +20,16 @@ def c09_iterate_zero_shortcut(w):
 
 
 def c11_values_masked_inplace(w):
-    # MapperValued.values_masked zeroes the caller-owned `values` array in place.
-    return (w.get("monitor") == "input_fingerprint" and str(w.get("callee", "")).startswith("MapperValued.")
-            and w.get("mutated") == ["values"] and w.get("mesh_pixel_mask") is True)
+    # MapperValued.values_masked zeroes the caller-owned `values` array in place (only with a mesh_pixel_mask).
+    # Two faces of the same mechanism: the fingerprint of `values` changes during MapperValued.values_masked, and the
+    # public attribute mapper_valued.values therefore reads differently after any query of the valued mapper.
+    if w.get("mesh_pixel_mask") is not True:
+        return False
+    if w.get("monitor") == "input_fingerprint":
+        return w.get("callee") == "MapperValued.values_masked" and w.get("mutated") == ["values"]
+    if w.get("monitor") == "order.matches_baseline":
+        return w.get("quantity") == "mapper_valued.values" and w.get("same_object_queried_earlier") is True
+    return False
 
 
 CLASSIFIERS = {
